@@ -312,6 +312,55 @@ impl<'a> BTreeReader<'a> {
         }
     }
 
+    /// Returns the largest key stored in the tree, or `None` if it holds no keys.
+    ///
+    /// Deletes never unlink a leaf, so the rightmost leaf (or a whole rightmost
+    /// subtree) may be empty while smaller keys still exist to its left. Children
+    /// are therefore tried from right to left until one yields a key; with no
+    /// emptied leaves this is a single root-to-rightmost-leaf descent.
+    pub fn last_key(&self) -> Result<Option<&'a [u8]>> {
+        self.last_key_in_subtree(self.root_page, 0)
+    }
+
+    fn last_key_in_subtree(&self, page_no: u32, depth: usize) -> Result<Option<&'a [u8]>> {
+        ensure!(
+            depth < 64,
+            "tree deeper than 64 levels at page {} during last_key (cycle?)",
+            page_no
+        );
+
+        let page_data = self.storage.page(page_no)?;
+        let header = PageHeader::from_bytes(page_data)?;
+
+        match header.page_type() {
+            PageType::BTreeLeaf => {
+                let leaf = LeafNode::from_page(page_data)?;
+                match leaf.cell_count() as usize {
+                    0 => Ok(None),
+                    n => Ok(Some(leaf.key_at(n - 1)?)),
+                }
+            }
+            PageType::BTreeInterior => {
+                let interior = InteriorNode::from_page(page_data)?;
+                if let Some(key) = self.last_key_in_subtree(interior.right_child(), depth + 1)? {
+                    return Ok(Some(key));
+                }
+                for idx in (0..interior.cell_count() as usize).rev() {
+                    let child = interior.slot_at(idx)?.child_page();
+                    if let Some(key) = self.last_key_in_subtree(child, depth + 1)? {
+                        return Ok(Some(key));
+                    }
+                }
+                Ok(None)
+            }
+            _ => bail!(
+                "unexpected page type {:?} during last_key at page {}",
+                header.page_type(),
+                page_no
+            ),
+        }
+    }
+
     pub fn get(&self, key: &[u8]) -> Result<Option<&'a [u8]>> {
         use crate::btree::leaf::SearchResult;
 
